@@ -18,7 +18,7 @@ Fact F_pytable : pyproject_table = ["tool"; "thailint"].
 Proof. reflexivity. Qed.
 Fact F_suffixes : valid_suffixes = doc_valid_suffixes.
 Proof. reflexivity. Qed.
-Fact F_repo_files : repo_ignore_files = [".thailintignore"; ".thailint.yaml"].
+Fact F_repo_files : repo_ignore_files = [".thailintignore"; ".thailint.yaml"; ".thailint.json"].
 Proof. reflexivity. Qed.
 Fact F_repo_key : repo_ignore_key = "ignore".
 Proof. reflexivity. Qed.
@@ -26,6 +26,8 @@ Fact F_parsers : file_parser_normalises = true /\ pyproject_parser_normalises = 
 Proof. split; reflexivity. Qed.
 Lemma norm_for_eq k raw : norm_for k raw = normalize_top raw.
 Proof. unfold norm_for. destruct F_parsers as [-> ->]. now destruct k. Qed.
+Fact F_py_swallow : pyproject_error_swallowed = false.
+Proof. reflexivity. Qed.
 Fact F_retry : retry_exceptions = ["TypeError"].
 Proof. reflexivity. Qed.
 Fact F_norm : norm_from = "-" /\ norm_to = "_".
@@ -60,7 +62,7 @@ Proof. intros Hu. by_units Hu. Qed.
 
 (* units whose rule does not find its documented section (listed defects) *)
 Definition lookup_defect_units : list string :=
-  ["improper-logging"; "stateless-class"; "lazy-ignores"; "unwrap-abuse"; "clone-abuse"; "blocking-async"].
+  ["improper-logging"; "stateless-class"; "lazy-ignores"].
 Fact F_lookup u : In u units -> smem u lookup_defect_units = false -> row_good (norm_key u) (gen_lookup u) = true.
 Proof.
   intros Hu. unfold units in Hu; cbn [In] in Hu.
@@ -102,12 +104,10 @@ Record relevant_off (q : quirks) (c : case) : Prop := {
   r_whole : has q (fl "whole_config_fallback" (c_unit c)) = false;
   r_lang : has q (fl "language_override_ignored" (c_unit c)) = false;
   r_cli : has q (fl "cli_override_skips_language_sections" (c_cmd c)) = false \/ c_overrides c = [];
-  r_ign_json : has q "repo_ignore_not_loaded[json]" = false \/ p_json (c_proj c) = Absent;
   r_ign_py : has q "repo_ignore_not_loaded[pyproject]" = false \/ p_pyproject (c_proj c) = Absent;
   r_ign_dash : has q "repo_ignore_not_loaded[--config]" = false \/ p_dash (c_proj c) = None;
   r_global : has q "global_config_option_ignored" = false \/ p_dash (c_proj c) = None;
   r_dry : has q "dry_config_option_merges_section_only" = false \/ p_dash (c_proj c) = None;
-  r_py : has q "pyproject_unparsable_swallowed" = false \/ p_pyproject (c_proj c) <> Unparsable;
   r_types : has q "wrong_type_swallowed" = false
             \/ (forall k raw, spec_selected c = LDoc k raw ->
                  no_type_error (doc_opts (c_unit c)) (doc_guards (c_unit c)) (spec_res c (section_of (c_unit c) raw)));
@@ -135,7 +135,7 @@ Lemma off_relevant q c : flags_off q -> case_good c = true -> relevant_off q c.
 Proof.
   intros H G. unfold case_good in G. apply andb_true_iff in G. destruct G as [Gu Gc].
   apply smem_In in Gu.
-  assert (P : forall f, In f ["repo_ignore_not_loaded[json]"; "repo_ignore_not_loaded[pyproject]"; "repo_ignore_not_loaded[--config]";
+  assert (P : forall f, In f ["repo_ignore_not_loaded[pyproject]"; "repo_ignore_not_loaded[--config]";
       "global_config_option_ignored"; "dry_config_option_merges_section_only";
       "pyproject_unparsable_swallowed"; "wrong_type_swallowed";
       "language_block_error_retried_without_language"; "invalid_top_level_value_shadowed_by_language_block"] -> has q f = false).
@@ -150,16 +150,13 @@ Proof.
 Qed.
 
 (* ------------------------------------------------------------------ carrier selection *)
-Lemma discovered_spec q p :
-  (has q "pyproject_unparsable_swallowed" = false \/ p_pyproject p <> Unparsable) ->
-  discovered q p = spec_discovered p.
+Lemma discovered_spec q p : discovered q p = spec_discovered p.
 Proof.
-  intros H. destruct p as [y j py d]. cbn [p_pyproject] in H.
-  unfold discovered, spec_discovered, swallow_py.
+  destruct p as [y j py d].
+  unfold discovered, spec_discovered, swallow_py. rewrite F_py_swallow.
   destruct y, j, py; try reflexivity.
-  destruct H as [H|H]; [|contradiction].
   cbv beta iota delta [discovery_order pyproject_name first_existing file_of kind_of_name p_yaml p_json p_pyproject String.eqb Ascii.eqb Bool.eqb].
-  now rewrite H.
+  now destruct (has q _).
 Qed.
 
 Lemma dash_active_spec q c :
@@ -173,7 +170,7 @@ Qed.
 Lemma selected_spec q c : relevant_off q c -> selected q c = spec_selected c.
 Proof.
   intros R. unfold selected, spec_selected, spec_dash.
-  rewrite (discovered_spec q _ (r_py q c R)), (dash_active_spec q c (r_global q c R)).
+  rewrite (discovered_spec q _), (dash_active_spec q c (r_global q c R)).
   destruct (spec_discovered (c_proj c)); [reflexivity|].
   destruct (p_dash (c_proj c)) as [d|]; [|reflexivity].
   rewrite F_suffixes. destruct (d_file d); try reflexivity; now destruct (smem _ _).
@@ -190,7 +187,7 @@ Proof.
 Qed.
 
 Lemma spec_selected_yaml c raw k :
-  spec_selected c = LDoc k raw -> (k = KYaml \/ k = KNone) ->
+  spec_selected c = LDoc k raw -> (k = KYaml \/ k = KJson \/ k = KNone) ->
   p_dash (c_proj c) = None /\ code_patterns (c_proj c) = pats raw.
 Proof.
   destruct c as [[y j py ds] cmd u lang fn ovs ms].
@@ -200,9 +197,9 @@ Proof.
   - exfalso. cbn [d_file d_suffix] in H.
     destruct y, j, py; try discriminate; destruct f; try discriminate;
       destruct (smem suf doc_valid_suffixes); try discriminate;
-      injection H as <- _; destruct K; discriminate.
+      injection H as <- _; destruct K as [K|[K|K]]; discriminate.
   - split; [reflexivity|].
-    destruct y, j, py; try discriminate; injection H as <- <-; try (destruct K; discriminate); reflexivity.
+    destruct y, j, py; try discriminate; injection H as <- <-; try (destruct K as [K|[K|K]]; discriminate); reflexivity.
 Qed.
 
 Lemma spec_selected_kinds c raw k :
@@ -229,10 +226,10 @@ Proof.
   destruct (spec_selected_kinds c raw k H) as [Kj [Kp Kd]].
   destruct k.
   - now destruct (spec_selected_yaml c raw KYaml H (or_introl eq_refl)).
-  - destruct (r_ign_json q c R) as [E|E]; [now rewrite E|]. now destruct (Kj eq_refl).
+  - now destruct (spec_selected_yaml c raw KJson H (or_intror (or_introl eq_refl))).
   - destruct (r_ign_py q c R) as [E|E]; [now rewrite E|]. now destruct (Kp eq_refl).
   - destruct (r_ign_dash q c R) as [E|E]; [now rewrite E|]. now destruct (Kd eq_refl).
-  - now destruct (spec_selected_yaml c raw KNone H (or_intror eq_refl)).
+  - now destruct (spec_selected_yaml c raw KNone H (or_intror (or_intror eq_refl))).
 Qed.
 
 (* ------------------------------------------------------------------ CLI overrides *)
@@ -256,12 +253,25 @@ Proof.
   - apply smem_false_notin. now destruct (smem opt all_languages).
 Qed.
 
+Lemma slist_eqb_eq a : forall b, slist_eqb a b = true -> a = b.
+Proof.
+  induction a as [|x xs IH]; intros [|y ys]; cbn [slist_eqb]; try discriminate; [reflexivity|].
+  intros H. apply andb_true_iff in H. destruct H as [E H]. apply String.eqb_eq in E. subst. now rewrite (IH ys H).
+Qed.
+
+Lemma override_langs_off q cmd langs :
+  has q (fl "cli_override_skips_language_sections" cmd) = false -> override_langs q cmd langs = all_languages.
+Proof.
+  intros H. unfold override_langs. rewrite H. destruct (slist_eqb langs all_languages) eqn:E; [|reflexivity].
+  now apply slist_eqb_eq.
+Qed.
+
 Lemma apply_row_section q nk cmd z cfg r :
   has q (fl "cli_override_skips_language_sections" cmd) = false -> row_ok nk cmd r ->
   as_map (get nk (apply_row q z cfg r)) = overridden (row_opt r) z (as_map (get nk cfg)).
 Proof.
   intros Hf. destruct r as [[[[c o] skey] opt] langs]. cbn [row_ok row_opt]. intros [-> [-> _]].
-  unfold apply_row, override_langs. rewrite Hf. rewrite get_set_same. reflexivity.
+  unfold apply_row. rewrite (override_langs_off q cmd langs Hf). rewrite get_set_same. reflexivity.
 Qed.
 
 Lemma apply_rows_lookup q nk cmd z lopts lang opt rows :
